@@ -215,6 +215,40 @@ def phot_stream(rep, r, n, lines, exps, metas):
             rep.violation(f'local_bkg-column-not-used:{lbkg}', f"init_params['local_bkg'] = {list(init['local_bkg'])} was supplied but the output local_bkg is "
                           f"{[float(v) for v in res['local_bkg']]}", replay)
             continue
+        # (S) the same scene with a starved fitter (some fits stop before converging): flag bit 8 marks exactly the rows whose own
+        #     fit report says so - also when the groups interleave with the row order
+        if k % 4 == 2:
+            ph8 = PSFPhotometry(model, fit_shape, grouper=None if no_grouper else SourceGrouper(sep), aperture_radius=4, progress_bar=False,
+                                localbkg_estimator=localbkg_estimator, fitter_maxiters=r.choice([2, 3, 4]))
+            # every other row starts exactly at the truth (its fit stops at once), the others well off (they run out of iterations)
+            init8 = init.copy()
+            for j_, i_ in enumerate(order):
+                tx_, ty_, tf_ = srcs[i_]
+                if j_ % 2 == 0:
+                    init8['x'][j_], init8['y'][j_], init8['flux'][j_] = tx_, ty_, tf_
+                else:
+                    init8['x'][j_], init8['y'][j_], init8['flux'][j_] = tx_ + 0.4, ty_ - 0.3, tf_ * 1.3
+            with warnings.catch_warnings():
+                warnings.simplefilter('ignore')
+                try:
+                    r8 = ph8(img, init_params=init8, mask=umask)
+                    infos = ph8.fit_info['fit_infos']
+                except Exception as e:                          # noqa: BLE001
+                    rep.violation(f'psfphot-raises:{type(e).__name__}:fitter_maxiters', f'PSFPhotometry(fitter_maxiters small) raised {e!r}', replay)
+                    continue
+
+            def not_converged(fi):
+                if fi.get('ierr', None) is not None:
+                    return fi['ierr'] not in (1, 2, 3, 4)
+                return fi.get('status', None) is not None and fi['status'] in (-1, 0)
+            exp8 = [not_converged(fi) for fi in infos]
+            got8 = [bool(int(v) & 8) for v in r8['flags']]
+            rep.count('flag8-probe' + (':mixed' if any(exp8) and not all(exp8) else ''))
+            if len(exp8) == len(got8) and exp8 != got8 and list(r8['id']) == list(range(1, nsrc + 1)):
+                # the fit reports are in source-id order; cross-check with the group structure only through the outputs
+                rep.violation('flag8-ne-fit-report', f'flag bit 8 is set for rows {[j for j, v in enumerate(got8) if v]} but the fit reports of rows '
+                              f'{[j for j, v in enumerate(exp8) if v]} say "not converged" (group ids {[int(v) for v in r8["group_id"]]})', replay)
+                continue
         # (S) recovery of the rendered truth (noise-free, started within a pixel)
         bad = None
         for j, i in enumerate(order):
